@@ -6043,6 +6043,7 @@ class LazyStruct(Construct):
                 offset += sc._actualsize(stream, context, path)
                 stream_seek(stream, offset, 0, path)
             except SizeofError:
+                stream_seek(stream, offset, 0, path)
                 parseret = sc._parsereport(stream, context, path)
                 values[i] = parseret
                 if sc.name:
@@ -6168,6 +6169,7 @@ class LazyArray(Subconstruct):
                 offset += sc._actualsize(stream, context, path)
                 stream_seek(stream, offset, 0, path)
             except SizeofError:
+                stream_seek(stream, offset, 0, path)
                 parseret = sc._parsereport(stream, context, path)
                 values[i] = parseret
                 offset = stream_tell(stream, path)
